@@ -168,6 +168,23 @@ def run(rep, tier, seed, model_ok=True, effort=1):
         cal_old, cal_new = old.rsplit(".", 1)[0], new.rsplit(".", 1)[0]
         if pv(cal_new) < pv(cal_old):
             rep.violation("bump moved calendar parts backwards", input=dict(pattern=pat2, old=old, new=new, date=str(d_new)), **{"class": "bump-backwards"})
+    # ---- (4a) a version made on the last day of a leap year (day 366), then bumped on the same day, a day later, from the future, and with --pin-date
+    for pat2 in ("YYYY.JJJ.BUILD", "YYYY.00J.BUILD", "YYYY.0M.0D.BUILD"):
+        for y in (2024, 2028, 2000, 2096):
+            d_old = dt.date(y, 12, 31)
+            old = render(impl, pat2, d_old)
+            for d_new in (d_old, d_old + dt.timedelta(days=1), d_old - dt.timedelta(days=30), None):
+                try:
+                    new = impl.v2version.incr(old, pat2, maybe_date=d_new) if d_new else impl.v2version.incr(old, pat2, pin_date=True)
+                except Exception as ex:
+                    new = "<%s>" % type(ex).__name__
+                rep.case(("bump-leap-day", pat2, str(d_old), str(d_new)), nontrivial=bool(new))
+                rep.count("bump-leap-day")
+                inp = dict(pattern=pat2, old=old, new=new, date=str(d_new) if d_new else "--pin-date")
+                if not new or new.startswith("<"):
+                    rep.violation("bump of a version made on day 366 of a leap year fails", input=inp, **{"class": "bump-backwards"})
+                elif pv(new.rsplit(".", 1)[0]) < pv(old.rsplit(".", 1)[0]):
+                    rep.violation("bump moved calendar parts backwards", input=inp, **{"class": "bump-backwards"})
     # ---- (4b) boundary: the new date lies in week 0 (%W / %U) of the year of a version that is already ahead
     for y in ((2019, 2021, 2022, 2026) if tier == "quick" else range(2002, 2098)):
         for wk in ("WW", "0W", "UU", "0U"):
